@@ -54,7 +54,9 @@ func isAllowedPossibleValue(opt *Option, value interface{}) error {
 		if reflect.TypeOf(val.Value).ConvertibleTo(valueType) {
 			compareAgainst = reflect.ValueOf(val.Value).Convert(valueType).Interface()
 		}
-		if compareAgainst == value {
+		// The values may be of a type that cannot be compared with ==, such as
+		// a slice: comparing two of these would panic.
+		if reflect.DeepEqual(compareAgainst, value) {
 			return nil
 		}
 
@@ -70,7 +72,7 @@ func isAllowedPossibleValue(opt *Option, value interface{}) error {
 func migrateValue(option *Option, value any) any {
 	for _, migration := range option.Migrations {
 		newValue := migration(option, value)
-		if newValue != value {
+		if !reflect.DeepEqual(newValue, value) {
 			log.Debugf("config: migrated %s value from %v to %v", option.Key, value, newValue)
 		}
 		value = newValue
